@@ -373,9 +373,11 @@ VEX_REG_CLASSES = {"rvm": (0x72, 0x75), "rm": (0x68, 0x6B), "rvmi": (0x7A, 0x7C)
                    # VexMr_Lx, VexMri / VexMri_Lx: r/m operand first
                    "mr": (0x62,), "mri": (0x64, 0x65),
                    # X86Lea: `lea reg, mem` (the memory operand has no register alternative: only the register kind is listed)
-                   "llea": (0x2B,)}
+                   "llea": (0x2B,),
+                   # X86Jcc / X86Jmp / X86Call to a bound label: rel8 and rel32 forms
+                   "lrel": (0x26, 0x28, 0x1C)}
 SHAPE_ROLES = {"rvm": ["reg", "vvvv", "rm"], "rm": ["reg", "rm"], "rvmi": ["reg", "vvvv", "rm", "imm"], "rmi": ["reg", "rm", "imm"],
-               "lrm": ["reg", "rm"], "lmr": ["rm", "reg"], "lrmi": ["reg", "rm", "imm"], "lop": None, "larith": ["rm", "reg"], "lrot": ["rm", "imm"], "larithi8": ["rm", "imm"], "lopreg": ["opc"], "larithrm": ["reg", "rm"], "lmov": ["rm", "reg"], "lmovrm": ["reg", "rm"], "mr": ["rm", "reg"], "mri": ["rm", "reg", "imm"], "llea": ["reg", "rm"]}
+               "lrm": ["reg", "rm"], "lmr": ["rm", "reg"], "lrmi": ["reg", "rm", "imm"], "lop": None, "larith": ["rm", "reg"], "lrot": ["rm", "imm"], "larithi8": ["rm", "imm"], "lopreg": ["opc"], "larithrm": ["reg", "rm"], "lmov": ["rm", "reg"], "lmovrm": ["reg", "rm"], "mr": ["rm", "reg"], "mri": ["rm", "reg", "imm"], "llea": ["reg", "rm"], "lrel": ["rel"]}
 
 
 def class_rows_lean(kept, rows, chunk=96):
@@ -416,6 +418,8 @@ def class_rows_lean(kept, rows, chunk=96):
                         okf = False
                     continue
                 if shape == "llea" and not o["reg"]:
+                    continue
+                if role == "rel":
                     continue
                 if o["reg"] not in CLASS or (len(CLASS[o["reg"]]) != 1 and shape not in ("larith", "lrot", "larithi8", "larithrm", "lmov", "lmovrm")) or o["implicit"]:
                     okf = False
